@@ -145,6 +145,21 @@ def accuracy(chk, P, f, fname):
         for b, i, e in f.events(lambda e: (e["k"] == "assign" and var_of(e["lhs"]) == v) or (e["k"] == "decl" and e["var"] == v)):
             out.append((b, i, e))
         return out
+
+    def lambda_norm_defs(v):
+        """calls of a local lambda of this function that, on every path through its body, assigns v from a norm (by-reference capture):
+        the recomputation extracted into a local helper is still a recomputation"""
+        out = []
+        for b, i, e in f.calls():
+            if not str(e.get("fn", "")).startswith("lambda@"):
+                continue
+            for g in P.by_id.get(e.get("fid"), []):
+                if g.d.get("parent") != f.id or not g.blocks:
+                    continue
+                isdef = lambda q: q["k"] == "assign" and var_of(q["lhs"]) == v and _norm_of(q.get("rhs"))[0]
+                if any(True for _ in g.events(isdef)) and g.path_exists(None, "exit", isdef) is None:
+                    out.append(e)
+        return out
     for n, (sb, si, se) in enumerate(S):
         site = "%s:%d" % (f.file, se["line"])
         chk.judge(only_via(f, sb, set(E)), "ACCURACY", "%s:success#%d:tested-against-accuracy" % (fname, n), site,
@@ -157,7 +172,7 @@ def accuracy(chk, P, f, fname):
             for (bb, tt), vs in E.items():
                 okv = False
                 for v in vs:
-                    defs = [e for _, _, e in norm_defs(v) if _norm_of(e.get("rhs") if e["k"] == "assign" else e.get("init"))[0]]
+                    defs = [e for _, _, e in norm_defs(v) if _norm_of(e.get("rhs") if e["k"] == "assign" else e.get("init"))[0]] + lambda_norm_defs(v)
                     tb = f.blocks[bb]
                     goal_ev = tb["ev"][0] if tb["ev"] else None
                     # path from the write to the test block avoiding every norm definition of v
